@@ -93,6 +93,28 @@ pub fn run(ctx: &Ctx, rep: &mut Reporter) -> Json {
                     rep.violation(case_idx, "implied-length", "output length differs from the length implied by its own header", d);
                 }
             }
+            // the same bytes at eight different address alignments (and hence different
+            // positions relative to any word-at-a-time scanning inside the parser)
+            {
+                let mut pad = vec![0u8; text.len() + 16];
+                let base = pad.as_ptr() as usize;
+                for off in 0..8usize {
+                    let start = (8 - base % 8) % 8 + off;
+                    pad[start..start + text.len()].copy_from_slice(&text);
+                    let c = cur::write_cache(&pad[start..start + text.len()]).expect("write to Vec");
+                    rep.count("evaluations", 1);
+                    rep.count("writes", 1);
+                    rep.count("writes_from_shifted_addresses", 1);
+                    if c != a {
+                        let mut d = mk("same bytes at another address", &a, &c);
+                        d.set("address_offset_mod_8", Json::i(off as u64));
+                        rep.violation(case_idx, "determinism", "serialisations of the same bytes placed at different addresses differ", d);
+                    }
+                }
+                if !text.is_ascii() {
+                    rep.count("non_ascii_mappings_written_from_shifted_addresses", 1);
+                }
+            }
             // concurrent writers
             let nthreads = if ctx.slow() { 2 } else { 8 };
             let hs: Vec<_> = (0..nthreads)
